@@ -476,8 +476,28 @@ func (c *Ctx) c12Maps() {
 		serve := c.P.Method("wire", "Server", "serve")
 		if serve != nil {
 			for _, ci := range callsIn(serve, calleeIs(wp)) {
-				fr, ok := core.FieldOfValue(ci.Common().Args[3])
-				R.Check(ok && fr.Is(pkWire, "Server", "Parameters"), "C12.R2", "serve:configured-parameters", c.at(ci), "writeParameters receives the configured global parameters", "argument is Server.Parameters", "argument is not the configured parameter map")
+				// the configured map is handed in, or read by writeParameters (or its builder) itself
+				ok := false
+				for _, a := range ci.Common().Args {
+					if fr, isF := core.FieldOfValue(a); isF && fr.Is(pkWire, "Server", "Parameters") {
+						ok = true
+					}
+				}
+				for _, fn := range []*ssa.Function{wp, bfn} {
+					if ok || fn == nil {
+						continue
+					}
+					for _, b := range fn.Blocks {
+						for _, in := range b.Instrs {
+							if v, isV := in.(ssa.Value); isV {
+								if fr, isF := core.FieldOfValue(v); isF && fr.Is(pkWire, "Server", "Parameters") {
+									ok = true
+								}
+							}
+						}
+					}
+				}
+				R.Check(ok, "C12.R2", "serve:configured-parameters", c.at(ci), "writeParameters receives the configured global parameters", "Server.Parameters is the argument (or is read by writeParameters itself)", "the configured parameter map is neither handed to writeParameters nor read by it")
 			}
 		}
 	}
